@@ -43,6 +43,7 @@ type c04State struct {
 	bad    bool
 	opDesc string
 	ops    []string
+	lastVA uintptr // page of the previous request, whatever space it went to (0: none yet)
 }
 
 func (s *c04State) fail(sig, format string, a ...interface{}) {
@@ -163,7 +164,15 @@ func (s *c04State) genPage(r *vlib.Rand) uintptr {
 	}
 	for tries := 0; tries < 50; tries++ {
 		var va uintptr
-		switch r.Intn(10) {
+		k := r.Intn(10)
+		if s.lastVA != 0 && r.Chance(1, 6) {
+			k = 100 // the page after / before / of the previous request: sequential runs, also across address spaces
+		}
+		switch k {
+		case 100:
+			va = s.lastVA + uintptr(r.PickInt([]int{4096, 4096, 4096, -4096, 0, 8192}))
+			ix := vmIndices(va) // stepping over the end of the lower half lands in the canonical upper half
+			va = vmCanon(ix[0], ix[1], ix[2], ix[3])
 		case 0, 1, 2: // fresh page anywhere
 			i4 := uintptr(r.PickInt([]int{0, 1, 2, 255, 256, 257, 300, 509, 510}))
 			ib := []int{0, 1, 2, 255, 256, 510, 511}
@@ -206,6 +215,7 @@ func (s *c04State) genPage(r *vlib.Rand) uintptr {
 		if va>>12 >= s.m.arena.Base>>12-1 && va>>12 <= (s.m.arena.End()>>12)+1 {
 			continue
 		}
+		s.lastVA = va
 		return va
 	}
 	return vmCanon(1, 2, 3, 4)
